@@ -334,7 +334,7 @@ func (w *World) open() {
 	if os.Getenv("AH_LOG") != "" {
 		lg = log.NewLogger(os.Stderr)
 	}
-	app, err := goatapp.New(lg, w.DB, nil, true, w.opts, baseapp.SetChainID(ChainID), baseapp.SetMempool(sdkmempool.NewSenderNonceMempool()))
+	app, err := goatapp.New(lg, w.DB, nil, true, w.opts, baseapp.SetChainID(ChainID), baseapp.SetMempool(sdkmempool.NewSenderNonceMempool(sdkmempool.SenderNonceMaxTxOpt(64))))
 	mustNoErr(err)
 	w.App = app
 }
@@ -545,6 +545,9 @@ func (w *World) HonestBlock(mempool [][]byte, reqs goattypes.LockingRequests, br
 	c0 := len(w.EL.calls)
 	w.EL.mu.Unlock()
 	res := &BlockResult{}
+	for _, m := range mempool { // the application-side mempool is filled by CheckTx
+		_, _ = w.App.CheckTx(&abci.RequestCheckTx{Tx: m, Type: abci.CheckTxType_New})
+	}
 	txs, perr := w.Prepare(mempool)
 	res.PrepareTxs, res.PrepareErr = txs, perr
 	if len(txs) == 0 {
